@@ -72,6 +72,20 @@ theorem suffix_of_cons {q pp : Path} {n : Name} (h : q.isSuffixOf (n :: pp) = tr
   · exact absurd h1 hne
   · exact List.isSuffixOf_iff_suffix.2 h1
 
+/-- the union shows the same at every path, up to xattrs -/
+def ViewX (s s' : St) : Prop := ∀ q, (merge s'.disk q).dropX = (merge s.disk q).dropX
+
+theorem ViewX.refl (s : St) : ViewX s s := fun _ => rfl
+
+theorem ViewX.trans {s s1 s2 : St} (h1 : ViewX s s1) (h2 : ViewX s1 s2) : ViewX s s2 :=
+  fun q => (h2 q).trans (h1 q)
+
+theorem ViewX.of_disk {s s' : St} (h : s'.disk = s.disk) : ViewX s s' := fun q => by rw [h]
+
+/-- the node at `p` is a directory -/
+def DirNode (p : Path) (s : St) : Prop :=
+  ∀ m0 r0 rest0, s.mem p = some m0 → m0.reals = r0 :: rest0 → (s.disk.statReal r0).isDir = true
+
 /-- what `create_upper_dir(p)` guarantees when it succeeds from `s` -/
 structure CUD (p : Path) (s s' : St) : Prop where
   cons : Consistent s'
@@ -84,6 +98,8 @@ structure CUD (p : Path) (s s' : St) : Prop where
   /-- the node itself and every ancestor directory: what the upper entry shows afterwards is
       what the node showed before (type, mode, content, target), up to the xattr -/
   anc : ∀ q, q.isSuffixOf p = true → ImgKept q s s'
+  /-- copying a DIRECTORY up changes the union nowhere (up to xattrs) -/
+  view : DirNode p s → ViewX s s'
 
 theorem CUD.img {p : Path} {s s' : St} (h : CUD p s s') : ImgKept p s s' :=
   h.anc p (List.isSuffixOf_iff_suffix.2 (List.suffix_refl p))
@@ -93,6 +109,7 @@ structure CUDE (s s' : St) : Prop where
   cons : Consistent s'
   lowers : s'.disk.lowers = s.disk.lowers
   upper : s'.disk.upper.isSome
+  view : ViewX s s'
 
 theorem isSuffixOf_cons_self (n : Name) (pp : Path) : (n :: pp).isSuffixOf pp = false := by
   cases h : (n :: pp).isSuffixOf pp with
@@ -121,12 +138,32 @@ theorem cudStep_spec {s : St} (hc : Consistent s) (hu : s.disk.upper.isSome) (n 
     (mode : Nat) (hmode : mode = (s.disk.statReal r).mode) :
     ∃ s', cudStep n pp mode s = .ok () s' ∧ CUD (n :: pp) s s' ∧
       (∀ p', p' ≠ n :: pp → s'.mem p' = s.mem p') ∧
-      (∀ q, q ≠ n :: pp → s'.disk.nodeAt 0 q = s.disk.nodeAt 0 q) := by
+      (∀ q, q ≠ n :: pp → s'.disk.nodeAt 0 q = s.disk.nodeAt 0 q) ∧ ViewX s s' := by
   obtain ⟨L, hup⟩ : ∃ L, s.disk.upper = some L := by
     cases h : s.disk.upper with
     | none => rw [h] at hu; cases hu
     | some L => exact ⟨L, rfl⟩
-  obtain ⟨⟨t0, ht0, hpex⟩, _, hdir0, habs, _⟩ := lowerDir_facts hc n pp hpm hm hpu hmu hr
+  obtain ⟨⟨t0, ht0, hpex⟩, ⟨j, t, hej, hj0, hrj, hmex⟩, hdir0, habs, ⟨tl, htl⟩⟩ :=
+    lowerDir_facts hc n pp hpm hm hpu hmu hr
+  -- the union is unchanged up to the xattr of the merged directory
+  have hview : ∀ q, (merge (s.disk.setUpper (n :: pp) (.dir mode 0 0)) q).dropX = (merge s.disk q).dropX := by
+    have htl_pos : ∀ i ∈ tl, i ≠ 0 := by
+      have hsub : (0 :: tl).Sublist (0 :: t0) := by rw [← htl, ← ht0]; exact dirsIdx_sublist _ _ _
+      have hs2 : (0 :: tl).Pairwise (· < ·) := (ht0 ▸ expIdx_sorted s.disk pp).sublist hsub
+      intro i hi
+      have := (List.pairwise_cons.1 hs2).1 i hi
+      omega
+    have hbelow : ∀ c, (s.disk.nodeAt 0 (c :: n :: pp)).isAbsent = true := by
+      intro c
+      have ht := hc.trees 0 L hup
+      have h3 : (L (n :: pp)).isDir = false := by
+        have : (L (n :: pp)).isAbsent = true := by simpa [Disk.nodeAt, Disk.layer, hup] using habs
+        cases hx : L (n :: pp) <;> simp_all [Node.isDir, Node.isAbsent]
+      have := leaf_of_nondir ht h3 c
+      simpa [Disk.nodeAt, Disk.layer, hup] using this
+    have hjd : (s.disk.nodeAt j (n :: pp)).isDir = true := by rw [hrj] at hdir; exact hdir
+    have hmode' : mode = (s.disk.nodeAt j (n :: pp)).mode := by rw [hmode, hrj]; rfl
+    exact fun q => merge_upperDir hu mode htl htl_pos habs hbelow hej hjd hmode' q
   -- the parent's upper real inode
   have hpr : pm.upperReal = some (realOf s.disk pp 0) := by
     simp [MNode.upperReal, hpex, ht0, realOf]
@@ -141,7 +178,7 @@ theorem cudStep_spec {s : St} (hc : Consistent s) (hu : s.disk.upper.isSome) (n 
     simp [childReal, realOf, nodeAt_setUpper _ _ _ hu, Node.isWhiteout, Node.isOpaqueDir]
   have hcons := upperDir_consistent hc hup n pp hpm hm hpu hmu hr hdir mode
     (s.log ++ [⟨0, Method.mkdir⟩])
-  refine ⟨_, ?_, ⟨hcons, ?_, ?_, ?_, ?_, ?_, ?_, ?_⟩, ?_, ?_⟩
+  refine ⟨_, ?_, ⟨hcons, ?_, ?_, ?_, ?_, ?_, ?_, ?_, fun _ => hview⟩, ?_, ?_, hview⟩
   · have hq : realOf (s.disk.setUpper (n :: pp) (.dir mode 0 0)) (n :: pp) 0 =
         { layer := 0, inUpper := true, path := n :: pp, whiteout := false, opq := false } := by
       simp [realOf, nodeAt_setUpper _ _ _ hu, Node.isWhiteout, Node.isOpaqueDir]
@@ -239,38 +276,38 @@ theorem createUpperDir_spec : ∀ (p : Path) (s : St), Consistent s → s.disk.u
     | nil =>
       rw [hr] at hst
       simp [Outcome, bind, M.bind, getNode, hm, hst]
-      exact ⟨hc, rfl, hu⟩
+      exact ⟨hc, rfl, hu, ViewX.refl s⟩
     | cons r rest =>
       rw [hr] at hst
       by_cases hd : (s.disk.statReal r).isDir = true
       · by_cases hmu : m.inUpper = true
         · simp [Outcome, bind, M.bind, getNode, hm, hst, hd, hmu, pure, M.pure]
           exact ⟨hc, ⟨m, hm, hmu⟩, rfl, hu, fun _ _ => rfl, fun p' m0 h => ⟨m0, h, rfl, rfl⟩, StatKept.refl s,
-            ImgKept.refl_anc hc hm hmu⟩
+            ImgKept.refl_anc hc hm hmu, fun _ => ViewX.refl s⟩
         · simp [Outcome, bind, M.bind, getNode, hm, hst, hd, hmu, fail]
-          exact ⟨hc, rfl, hu⟩
+          exact ⟨hc, rfl, hu, ViewX.refl s⟩
       · simp [Outcome, bind, M.bind, getNode, hm, hst, hd, fail]
-        exact ⟨hc, rfl, hu⟩
+        exact ⟨hc, rfl, hu, ViewX.refl s⟩
   | n :: pp, s, hc, hu => by
     rw [createUpperDir_tail]
     cases hm : s.mem (n :: pp) with
     | none =>
       simp [Outcome, bind, M.bind, getNode, hm]
-      exact ⟨hc, rfl, hu⟩
+      exact ⟨hc, rfl, hu, ViewX.refl s⟩
     | some m =>
       have hst := nodeStat_eq hc hm
       cases hr : m.reals with
       | nil =>
         rw [hr] at hst
         simp [Outcome, bind, M.bind, getNode, hm, hst]
-        exact ⟨hc, rfl, hu⟩
+        exact ⟨hc, rfl, hu, ViewX.refl s⟩
       | cons r rest =>
         rw [hr] at hst
         by_cases hd : (s.disk.statReal r).isDir = true
         · by_cases hmu : m.inUpper = true
           · simp [Outcome, bind, M.bind, getNode, hm, hst, hd, hmu, pure, M.pure]
             exact ⟨hc, ⟨m, hm, hmu⟩, rfl, hu, fun _ _ => rfl, fun p' m0 h => ⟨m0, h, rfl, rfl⟩, StatKept.refl s,
-            ImgKept.refl_anc hc hm hmu⟩
+            ImgKept.refl_anc hc hm hmu, fun _ => ViewX.refl s⟩
           · simp only [Bool.not_eq_true] at hmu
             obtain ⟨pm, hpm, _⟩ := hc.reach n pp m hm
             have hrl := real_lower hc hm hr hmu
@@ -305,14 +342,28 @@ theorem createUpperDir_spec : ∀ (p : Path) (s : St), Consistent s → s.disk.u
                 rw [nodeAt_of_lowers hlow hrl]; exact hd
               have hst1 : s1.disk.statReal r = s.disk.statReal r := by
                 simp only [Disk.statReal]; exact nodeAt_of_lowers hlow hrl _
-              obtain ⟨s2, hs2, hcud, hfr, hfrd⟩ := cudStep_spec hc1 hu1 n pp hpm1 hm1 hpu1 hmu hr hdir1 (s.disk.statReal r).mode
+              obtain ⟨s2, hs2, hcud, hfr, hfrd, hview2⟩ := cudStep_spec hc1 hu1 n pp hpm1 hm1 hpu1 hmu hr hdir1 (s.disk.statReal r).mode
                 (by rw [hst1])
               rw [hs2]
               have hstat1 : StatKept s s1 := by
                 rcases h1 with h | ⟨h, _⟩
                 · exact h.stat
                 · rw [h]; exact StatKept.refl s
-              refine ⟨hcud.cons, hcud.up, by rw [hcud.lowers, hlow], hcud.upper, ?_, ?_, hstat1.trans hcud.stat, ?_⟩
+              have hview1 : ViewX s s1 := by
+                rcases h1 with h | ⟨h, _⟩
+                · apply h.view
+                  intro m0 r0 rest0 hm0 hr0
+                  cases hdd : (s.disk.statReal r0).isDir with
+                  | true => rfl
+                  | false =>
+                    exfalso
+                    obtain ⟨pm', hpm', hnk⟩ := hc.reach n pp m hm
+                    rw [hm0] at hpm'; cases hpm'
+                    rw [(nondir_no_kids hc hm0 hr0 hdd).1] at hnk
+                    cases hnk
+                · rw [h]; exact ViewX.refl s
+              refine ⟨hcud.cons, hcud.up, by rw [hcud.lowers, hlow], hcud.upper, ?_, ?_, hstat1.trans hcud.stat, ?_,
+                fun _ => hview1.trans hview2⟩
               rotate_left 2
               · intro q hq
                 by_cases hqe : q = n :: pp
@@ -358,7 +409,7 @@ theorem createUpperDir_spec : ∀ (p : Path) (s : St), Consistent s → s.disk.u
                 rw [hrec] at ih
                 simpa [Outcome, bind, M.bind, getNode, hm, hst, hd, hmu, hpm, whenM, hpu, hrec] using ih
         · simp [Outcome, bind, M.bind, getNode, hm, hst, hd, fail]
-          exact ⟨hc, rfl, hu⟩
+          exact ⟨hc, rfl, hu, ViewX.refl s⟩
 
 /-- the invariant only talks about the disk and the forest -/
 theorem Consistent.congr {s s' : St} (h : Consistent s) (hd : s'.disk = s.disk) (hm : s'.mem = s.mem) :
@@ -534,7 +585,8 @@ theorem copyFileUp_spec {s : St} (hc : Consistent s) (hu : s.disk.upper.isSome) 
           refine ⟨m0, r0, rest0, by rw [hm3, hmem2]; simp [Mem.set, hp', hm0], hr0, ?_, fun h => ?_⟩
           · simp only [Disk.statReal, hrp]; exact hsame.2.2.1
           · simp only [Disk.statReal, hrp] at h ⊢; rw [hsame.2.1]; exact h
-      refine ⟨hfinal.congr ?_ ?_, ?_, ?_, ?_, ?_, ?_, hstat1.trans hstat3, ?_⟩
+      refine ⟨hfinal.congr ?_ ?_, ?_, ?_, ?_, ?_, ?_, hstat1.trans hstat3, ?_,
+        fun hdn => absurd (hdn m r rest hm hr) (by rw [hnd]; simp)⟩
       rotate_right 1
       · intro q hq
         by_cases hqe : q = n :: pp
